@@ -2,17 +2,21 @@
 
 Enumerated (exhaustively, no sampling):
  (a) base databases, all LOADED from files: examples/somersault.pdx, examples/somersault_modified.pdx and the
-     generated kitchen-sink database of odxmodel.emit_c11 (core + features; a feature that makes the round trip
-     raise in isolation is a finding and is left out of the database that is perturbed);
+     generated kitchen-sink database of odxmodel.emit_c11 (core + ~160 features; a feature that makes the round
+     trip raise in isolation is a finding `C11/<class.field>/crash` and is left out of the database that is perturbed);
  (b) for every (element class, dataclass field) pair reachable in them x every applicable perturbation kind
-     (None -> value, bool flip, number + 1, enum -> next member, string -> XML metacharacters / other string of
-     the same lexical shape, list -> one more element, reference -> other target / explicit DOCREF) the first
-     instance on which the perturbed database is still self-consistent (Database.refresh() succeeds):
-     write_pdx_file -> load_pdx_file -> compare, write again -> compare members;
+     (set: None -> value, flip: bool, inc: number + 1, next: enum -> next member, meta: string -> XML
+     metacharacters, alt: other string of the same lexical shape, grow: list -> one more element, retarget:
+     reference -> other target, docref: reference -> explicit DOCREF) the first instance (of at most MAXCAND) on
+     which the perturbed database is still self-consistent: write_pdx_file -> load_pdx_file -> compare, write
+     again -> compare members.  Admissible = Database.refresh() accepts the perturbed object graph AND the parser
+     accepts the written document or -- loaded with strict_mode off -- the written document is NOT faithful;
  (c) archive member orders (all permutations of the ODX documents for the generated database and -- thorough --
-     for somersault, rotations + reversal in quick) x {load_pdx_file, load_directory, load_files}.
+     for somersault, rotations + reversal in quick) x {load_pdx_file, load_directory, load_files (paths / bare names)}.
 Oracle: identity (odxmodel.refroundtrip): the reloaded object graph equals the written one in every dataclass
-field, ODX members of two successive writes are byte-identical, canonical encode/decode of every service agrees.
+field the parser reads from the element, ODX members of two successive writes are byte-identical, canonical
+encode/decode of every service agrees.  Finding keys: C11/<Class>.<field>/<dropped|altered|mis-escaped|crash>,
+C11/entrypoint/<loader>/..., C11/order/<loader>/..., C11/behaviour/<step>.
 """
 from __future__ import annotations
 
@@ -58,10 +62,18 @@ DISCRIMINATOR = {("CompuMethod", "category"): "the compu method class is chosen 
                  ("Response", "response_type"): "is the XML tag of the response (list it is stored in)"}
 # values typed by BASE-DATA-TYPE: they legitimately re-parse differently when only the type is perturbed
 TYPED_BY_BASE_TYPE = {("CodedConstParameter", "coded_value"), ("NrcConstParameter", "coded_values"), ("CompuRationalCoeffs", "numerators"),
-                      ("CompuRationalCoeffs", "denominators")}
+                      ("CompuRationalCoeffs", "denominators"), ("TableRow", "key_raw")}
 NAME_LIKE = re.compile(r"short_name|snref|snpathref|not_inherited|_if_refs$|local_id|ref_id|doc_name")
 MARKUP = {("Description", "text"): "holds serialised XHTML, not plain text"}
-NUMERIC_TEXT = {("CompuConst", "v"): "xsd:double", ("CompuDefaultValue", "v"): "xsd:double"}
+NUMERIC_TEXT = {("CompuConst", "v"): "xsd:double", ("CompuDefaultValue", "v"): "xsd:double",
+                ("Limit", "value_raw"): "a limit of a numeric type is a number (the parser converts it while loading)"}
+# perturbations judged by hand to leave the envelope although refresh() accepts them (the parser rejects the written document,
+# also with strict_mode off, and the document is written faithfully)
+INADMISSIBLE = {
+    ("LinkedDtcDop.dtc_dop_ref.ref_id", "retarget"): "NOT-INHERITED-DTC-SNREFS name DTCs of the linked DTC-DOP; another target does not have them",
+    ("TableKeyParameter.table_row_snref", "set"): "TABLE-ROW-SNREF without a table: the parser cannot resolve it (AttributeError '_table')",
+}
+PRESENCE_FLAGS = {("EnvironmentData", "all_value"): "presence of the empty element ALL-VALUE: the parser yields None or True, never False"}
 CHOICE_GROUPS = {
     "Field": ("structure_ref", "structure_snref", "env_data_desc_ref", "env_data_desc_snref"),
     "TableRow": ("structure_ref", "structure_snref", "dop_ref", "dop_snref"),
@@ -206,6 +218,9 @@ def site_kinds(s: R.Site) -> List[Tuple[str, Optional[str]]]:
     """[(kind, None) | (kind, reason why it is not applied)] for a site."""
     leaf = s.attr
     owner_names = mro_names(s.owner)
+    first = s.field.split(".")[0]
+    if first in DERIVED_OWNERS and any(o in owner_names for o in DERIVED_OWNERS[first]):
+        return [("any", "derived: " + DERIVED[first])]
     if R.is_link(s.holder) and s.holder is not s.owner:
         if leaf == "doc_fragments":
             return [("any", "derived: " + DERIVED["doc_fragments"])]
@@ -215,14 +230,16 @@ def site_kinds(s: R.Site) -> List[Tuple[str, Optional[str]]]:
             return [("retarget", None)]
         if leaf == "ref_docs":
             return [("docref", None)]
-    if leaf in DERIVED_OWNERS and any(o in owner_names for o in DERIVED_OWNERS[leaf]) and s.holder is s.owner:
-        return [("any", "derived: " + DERIVED[leaf])]
     for (c, f), why in DISCRIMINATOR.items():
         if f == s.field and c in owner_names:
             return [("any", "discriminator: " + why)]
     out: List[Tuple[str, Optional[str]]] = []
     for k in R.kinds_of(s.value):
         why = None
+        if k == "flip":
+            for (c, f), w in PRESENCE_FLAGS.items():
+                if f == s.field and c in owner_names:
+                    why = "lexical domain: " + w
         if k == "meta":
             if NAME_LIKE.search(s.field):
                 why = "lexical domain: names, IDs and short-name references cannot contain XML metacharacters"
@@ -640,6 +657,7 @@ class Outcome:
 
     def __init__(self) -> None:
         self.findings: List[Tuple[str, str]] = []  # (key, detail)
+        self.where: Dict[str, Tuple[Any, ...]] = {}  # key -> path of the first difference with that key
         self.stage = "ok"
         self.db1: Any = None
         self.members: Optional[Dict[str, bytes]] = None
@@ -658,10 +676,22 @@ def is_derived(cls: str, field: str) -> bool:
     return first in DERIVED_CLASSES and any(cls == c or cls.endswith(c) for c in DERIVED_CLASSES[first])
 
 
+def ignore_field(elem: Any, field: str) -> bool:
+    """SpecialDataGroup.sdg_caption of a group that names its caption by SDG-CAPTION-REF is the RESOLVED caption object."""
+    return field == "sdg_caption" and type(elem).__name__ == "SpecialDataGroup" and getattr(elem, "sdg_caption_ref", None) is not None
+
+
+def diff_pair(d: R.Diff) -> str:
+    f = d.field
+    if ".ref_docs." in f:
+        f = f[:f.index(".ref_docs.") + len(".ref_docs")]
+    return f"{d.cls}.{f}"
+
+
 def diff_mode(d: R.Diff, meta_pair: Optional[str]) -> str:
-    if d.field.endswith("ref_docs"):
+    if d.field.endswith("ref_docs") or ".ref_docs." in d.field:
         # 1 fragment = explicit DOCREF, 2 fragments = the document and layer of the referencing element (no DOCREF)
-        return "dropped" if d.b.startswith("2 item") else "altered"
+        return "altered" if (d.a.startswith("2 item") and d.b.startswith("1 item")) else "dropped"
     if meta_pair is not None and d.pair == meta_pair and d.mode == "altered":
         return "mis-escaped"
     return d.mode
@@ -696,27 +726,39 @@ def judge(db: Any, pert: Optional[Dict[str, Any]], with_behaviour_of_original: b
         # Load it again leniently (odxtools.exceptions.strict_mode = False) and compare.
         strict_error = e
         import odxtools.exceptions as ex
+        import logging
         old_mode = ex.strict_mode
         ex.strict_mode = False
+        lg = logging.getLogger("odxtools")
+        old_level = lg.level
+        lg.setLevel(logging.CRITICAL)
         try:
             db1 = load_from_members(m)
         except Exception as e2:
+            lg.setLevel(old_level)
+            ex.strict_mode = old_mode
+            if pert is not None and (pert["pair"], pert["kind"]) in INADMISSIBLE:
+                out.stage = "inadmissible"
+                out.reason = INADMISSIBLE[(pert["pair"], pert["kind"])]
+                return out
             out.stage = "load"
             out.findings.append((f"C11/{crash_pair}/crash", f"loading the written PDX raised {type(e).__name__}: {str(e)[:300]} "
                                                            f"(and {type(e2).__name__} with strict_mode off)"))
             return out
         finally:
+            lg.setLevel(old_level)
             ex.strict_mode = old_mode
     out.db1 = db1
     root1 = root_of(db1)
-    diffs = R.diff(root, root1)
+    diffs = R.diff(root, root1, ignore=ignore_field)
     for d in diffs:
         if pert is not None and is_derived(d.cls, d.field):
             continue  # a function of other fields that the perturbation did not keep in step
-        if pert is not None and pert["pair"].endswith(".base_data_type") and any(d.pair == f"{c}.{f}" for c, f in TYPED_BY_BASE_TYPE):
-            continue
+        if pert is not None and (pert["pair"].endswith(".base_data_type") or strict_error is not None) and any(d.pair == f"{c}.{f}" for c, f in TYPED_BY_BASE_TYPE):
+            continue  # values typed by a BASE-DATA-TYPE the perturbation changed (or took from a donor of another type)
         mode = diff_mode(d, pair if meta else None)
-        out.findings.append((f"C11/{d.pair}/{mode}", f"at {list(d.path)}: wrote {d.a} -- loaded back {d.b}"))
+        out.findings.append((f"C11/{diff_pair(d)}/{mode}", f"at {list(d.path)}: wrote {d.a} -- loaded back {d.b}"))
+        out.where.setdefault(f"C11/{diff_pair(d)}/{mode}", tuple(d.path))
     if strict_error is not None:
         e = strict_error
         if pert is None:
@@ -733,7 +775,7 @@ def judge(db: Any, pert: Optional[Dict[str, Any]], with_behaviour_of_original: b
     eq = all(a == b for k in root for a, b in zip(root[k], root1[k])) and all(len(root[k]) == len(root1[k]) for k in root)
     if eq and diffs:
         pass  # the field-wise comparison is at least as strict as dataclass equality (bool vs int)
-    if not eq and not diffs:
+    if pert is None and not eq and not diffs:
         out.findings.append(("C11/unlocalised/altered", "dataclass equality of the top-level objects fails but no field differs"))
     # second write: byte-identical ODX members (then loading it again gives the same database: loader determinism is part (c))
     try:
@@ -750,10 +792,10 @@ def judge(db: Any, pert: Optional[Dict[str, Any]], with_behaviour_of_original: b
             out.stage = "rewrite"
             out.findings.append((f"C11/{crash_pair}/crash", f"loading the second write raised {type(e).__name__}: {str(e)[:300]}"))
             return out
-        d2 = R.diff(root1, root_of(db2))
+        d2 = R.diff(root1, root_of(db2), ignore=ignore_field)
         if d2:
             for d in d2:
-                out.findings.append((f"C11/{d.pair}/{diff_mode(d, None)}", f"first vs second reload at {list(d.path)}: {d.a} -- {d.b}"))
+                out.findings.append((f"C11/{diff_pair(d)}/{diff_mode(d, None)}", f"first vs second reload at {list(d.path)}: {d.a} -- {d.b}"))
         elif not diffs:
             out.findings.append((f"C11/rewrite/{os.path.splitext(changed[0])[1].lstrip('.')}/altered",
                                  f"second write differs in {changed}: {first_difference(m[changed[0]] if changed[0] in m else b'', m2.get(changed[0], b''))}"))
@@ -895,11 +937,13 @@ def run_perturbation(base: str, off: Sequence[str], path: Sequence[Any], kind: s
         try:
             got = R.resolve(root_of(out.db1), path)
             want = R.resolve(root, path)
-            same = not R.diff(want, got)
+            # differences INSIDE a composite value belong to (and are reported under) the inner (class, field) pairs
+            same = not any(d.path == () for d in R.diff(want, got, ignore=ignore_field))
         except Exception:
             same = False
         if not same and not any(k.startswith(f"C11/{pair}/") for k, _ in out.findings):
-            return "masked:" + (out.findings[0][0] if out.findings else "?"), findings, new
+            by = [k for k, p in out.where.items() if tuple(path[:len(p)]) == tuple(p)]
+            return "masked:" + (by[0] if by else (out.findings[0][0] if out.findings else "?")), findings, new
     return "run", findings, new
 
 
@@ -910,10 +954,12 @@ def perturb_unit(unit: Tuple[str, Tuple[str, ...], str, str, str]) -> Part:
     paths = candidate_paths(base, off, cls, field, kind)
     pair = f"{cls}.{field}"
     last = "skip:no instance"
+    done = False
     for path in paths[:MAXCAND]:
         status, findings, new = run_perturbation(base, off, path, kind)
         if status.startswith("skip:"):
-            last = status
+            if not last.startswith("masked:"):
+                last = status
             part.count("perturbations_inadmissible")
             continue
         part.count("evaluations")
@@ -923,13 +969,15 @@ def perturb_unit(unit: Tuple[str, Tuple[str, ...], str, str, str]) -> Part:
         for key, detail in findings:
             part.violation(key, case, f"[{base}: {pair} {kind} -> {new}] {detail}")
         if status.startswith("masked:"):
-            last = status
-        elif any(k.startswith(f"C11/{pair}/") for k, _ in findings):
+            last = status  # the instance sits below something the writer drops anyway: try the next instance
+            continue
+        if any(k.startswith(f"C11/{pair}/") for k, _ in findings):
             last = "finding:" + sorted(k for k, _ in findings if k.startswith(f"C11/{pair}/"))[0]
         else:
             last = "survived" + (" (other findings: " + ",".join(sorted({k for k, _ in findings})) + ")" if findings else "")
         if len(part.samples) < 1 and kind in ("meta", "grow"):
             part.sample({"base": base, "pair": pair, "kind": kind, "new": new, "path": list(path)}, limit=1)
+        done = True
         break
     part.add("cov", (base, pair, kind, last))
     return part
@@ -991,6 +1039,13 @@ def load_how(members: Dict[str, bytes], order: Sequence[str], how: str) -> Any:
                 f.write(members[n])
         if how == "load_files":
             return loadfile.load_files(*[os.path.join(d, n) for n in order])
+        if how == "load_files(cwd)":  # bare file names, the directory being the current one
+            cwd = os.getcwd()
+            os.chdir(d)
+            try:
+                return loadfile.load_files(*order)
+            finally:
+                os.chdir(cwd)
         real = os.listdir
 
         def fake(p: Any = ".") -> List[str]:
@@ -1021,7 +1076,7 @@ def aux_view(db: Any) -> Dict[str, int]:
 
 def compare_loaded(ref: Any, ref_beh: List[Any], db: Any, how: str) -> List[Tuple[str, str]]:
     out: List[Tuple[str, str]] = []
-    for d in R.diff(db_view(ref), db_view(db)):
+    for d in R.diff(db_view(ref), db_view(db), ignore=ignore_field):
         out.append((f"C11/order/{how}/{d.pair}", f"at {list(d.path)}: {d.a} vs {d.b}"))
     if ref.short_name != db.short_name:
         out.append((f"C11/entrypoint/{how}/Database.short_name", f"{ref.short_name!r} (load_pdx_file reads index.xml) vs {db.short_name!r}"))
@@ -1043,6 +1098,9 @@ def member_order(names: List[str], perm: Sequence[int], rot: int) -> List[str]:
     return out[rot:] + out[:rot]
 
 
+ENTRY_POINTS = ("load_pdx_file", "load_directory", "load_files", "load_files(cwd)")
+
+
 def order_unit(unit: Tuple[str, Tuple[str, ...], List[Tuple[Tuple[int, ...], int]]]) -> Part:
     base, off, chunk = unit
     part = Part()
@@ -1052,7 +1110,7 @@ def order_unit(unit: Tuple[str, Tuple[str, ...], List[Tuple[Tuple[int, ...], int
     ref_beh = behaviour(ref)
     for perm, rot in chunk:
         order = member_order(names, perm, rot)
-        for how in ("load_pdx_file", "load_directory", "load_files"):
+        for how in ENTRY_POINTS:
             part.count("evaluations")
             part.count("order_loads")
             case = {"mode": "order", "base": base, "off": list(off), "perm": list(perm), "rot": rot, "how": how}
@@ -1187,7 +1245,10 @@ def run(ctx: Ctx) -> None:
     ctx.extra["classes_reached"] = len({c for c, _ in all_pairs})
     ctx.extra["perturbation_status_counts"] = summary
     ctx.extra["policy"] = {"not_applied": policy_na, "DERIVED": DERIVED, "DISCRIMINATOR": {f"{c}.{f}": w for (c, f), w in DISCRIMINATOR.items()},
-                           "MARKUP": {f"{c}.{f}": w for (c, f), w in MARKUP.items()}, "NUMERIC_TEXT": {f"{c}.{f}": w for (c, f), w in NUMERIC_TEXT.items()}}
+                           "MARKUP": {f"{c}.{f}": w for (c, f), w in MARKUP.items()}, "NUMERIC_TEXT": {f"{c}.{f}": w for (c, f), w in NUMERIC_TEXT.items()},
+                           "PRESENCE_FLAGS": {f"{c}.{f}": w for (c, f), w in PRESENCE_FLAGS.items()},
+                           "INADMISSIBLE": {f"{p} {k}": w for (p, k), w in INADMISSIBLE.items()},
+                           "TYPED_BY_BASE_TYPE": sorted(f"{c}.{f}" for c, f in TYPED_BY_BASE_TYPE)}
     ctx.extra["coverage_table"] = table
     ctx.extra["not_reachable_in_any_base"] = unreached_classes(all_pairs)
     ctx.bounds = {"bases": [b for b, _ in bases], "kitchen_sink_features_off": list(off), "max_instances_tried_per_pair": MAXCAND,
@@ -1195,13 +1256,19 @@ def run(ctx: Ctx) -> None:
                   "orders": {"ks": "all permutations of the 4 ODX documents + every rotation of the 8 members (identity and reversed)",
                              "somersault": "all 5040 permutations of the 7 ODX documents" if not ctx.quick else "identity, 6 rotations, reversal",
                              "somersault_modified": "identity, rotations, reversal"},
-                  "entry_points": ["load_pdx_file", "load_directory", "load_files"]}
+                  "entry_points": list(ENTRY_POINTS)}
     outcomes = ctx.sets.get("order_outcomes", set())
     ctx.guard("at least 500 admissible perturbations were executed", ctx.counts.get("perturbations_run", 0) >= 500)
     ctx.guard("both surviving and inadmissible perturbations were seen", summary.get("survived", 0) > 0 and summary.get("skip", 0) > 0)
-    ctx.guard("every entry point loaded at least one order", {h for h, _ in outcomes} == {"load_pdx_file", "load_directory", "load_files"})
+    ctx.guard("every entry point loaded at least one order", {h for h, _ in outcomes} == set(ENTRY_POINTS))
     ctx.guard("more than 1000 (class, field) pairs reached", len(all_pairs) > 1000)
     ctx.sample({"base": "ks", "members": list(base_members("ks", off))})
+    # the framework re-executes the recorded case of every finding through replay(); do these re-executions on the worker pool
+    cases = {jdump(case): case for (_, case, _) in ctx.viol.values()}
+    pmap(ctx, replay_unit, [cases[k] for k in sorted(cases)])
+    import json
+    for memo, res in ctx.sets.pop("replayed", set()):
+        _REPLAY_MEMO[memo] = [(k, d) for k, d in json.loads(res)]
 
 
 def unreached_classes(pairs: set) -> List[str]:
@@ -1228,6 +1295,13 @@ def unreached_classes(pairs: set) -> List[str]:
 
 
 _REPLAY_MEMO: Dict[str, List[Tuple[str, str]]] = {}
+
+
+def replay_unit(case: Any) -> Part:
+    part = Part()
+    part.add("replayed", (jdump(case), jdump([[k, d] for k, d in replay(case)])))
+    part.count("replays")
+    return part
 
 
 def replay(case: Any) -> List[Tuple[str, str]]:
